@@ -106,6 +106,25 @@ func dstr(k zygo.Sexp) string {
 	return k.SexpString(nil)
 }
 
+// how the JSON encoder spells a key as an object key: taken from the real encoder (a probe hash
+// holding only that key), because the spelling of keys is not this property's subject
+func djson(env *zygo.Zlisp, k zygo.Sexp) string {
+	h, err := zygo.MakeHash(nil, "hash", env)
+	if err != nil {
+		panic(err)
+	}
+	if err := h.HashSet(k, &zygo.SexpInt{Val: 0}); err != nil {
+		panic(err)
+	}
+	s := zygo.SexpToJson(h)
+	const prefix = `{"Atype":"hash", `
+	idx := strings.Index(s, `:0, "zKeyOrder":[`)
+	if !strings.HasPrefix(s, prefix) || idx < len(prefix) {
+		panic("json of a one-key hash has an unexpected shape: " + s)
+	}
+	return s[len(prefix):idx]
+}
+
 type universe struct {
 	id    string
 	specs []kspec
@@ -120,7 +139,7 @@ func (u *universe) header(env *zygo.Zlisp) (input, impl string) {
 			panic(fmt.Sprintf("universe key %s cannot be hashed: %v", shape(k), err))
 		}
 		toks = append(toks, fmt.Sprintf("%s@%d@%s@%s", shape(k), code,
-			hex.EncodeToString([]byte(dstr(k))), hex.EncodeToString([]byte(k.SexpString(nil)))))
+			hex.EncodeToString([]byte(dstr(k))), hex.EncodeToString([]byte(djson(env, k)))))
 	}
 	var eq, ac []string
 	for _, a := range u.keys {
@@ -596,8 +615,8 @@ func main() {
 	}
 	var enum func(mode string, prefix []op, depth int)
 	enum = func(mode string, prefix []op, depth int) {
-		emit(mode, prefix)
 		if depth == 0 {
+			emit(mode, prefix)
 			return
 		}
 		v := int64(len(prefix) + 1)
@@ -606,12 +625,18 @@ func main() {
 			enum(mode, append(prefix[:len(prefix):len(prefix)], op{del: true, k: k}), depth-1)
 		}
 	}
+	// shortest histories first: all of length 0, then 1, ... up to the bound
+	all := func(mode string, bound int) {
+		for d := 0; d <= bound; d++ {
+			enum(mode, nil, d)
+		}
+	}
 	use(uA)
-	enum("A", nil, exA)
-	enum("S", nil, exS)
+	all("A", exA)
+	all("S", exS)
 	use(uB)
-	enum("A", nil, exB)
-	enum("S", nil, exS-1)
+	all("A", exB)
+	all("S", exS-1)
 
 	// random long histories, observed after every step; deletes are biased to live keys
 	rng := lib.NewRng(a.Seed)
